@@ -6,6 +6,7 @@
 use h_common::{tool_error, Args};
 
 mod daser;
+mod pruner;
 mod ranges;
 mod recstore;
 mod session;
@@ -30,6 +31,7 @@ fn main() {
         ("record", "subs") => subs::record(&args),
         ("record", "syncer") => syncer::record(&args),
         ("record", "daser") => daser::record(&args),
+        ("record", "pruner") => pruner::record(&args),
         ("record", "store") => store::record(&args),
         _ => tool_error(&format!("unknown mode/model {mode}/{model}")),
     }
